@@ -244,6 +244,7 @@ Proof.
 Qed.
 
 Print Assumptions effective_lookup.
+Print Assumptions effective_forced.
 Print Assumptions eff_rd_other.
 Print Assumptions eff_rd_cores.
 
@@ -276,4 +277,87 @@ Proof.
   apply py_mkdict_kvs. apply forced_nodup.
 Qed.
 
+Lemma submit_shape wait td rd ek ecores act q sp mc mw hl f act' :
+  assoc "resource_dict" td = Some (sdict rd) ->
+  assoc "future" (adel "resource_dict" td) = Some f ->
+  assoc "cores" ek = Some (VInt ecores) ->
+  cores_is_int rd -> threads_is_int rd -> NoDup (keys td) ->
+  let slots := (int_or ecores (assoc "cores" (eff_rd ecores rd)) * int_or 1 (assoc "threads_per_core" rd))%Z in
+  wait act (VInt slots) mc mw = Ok act' ->
+  _submit_function_to_separate_process wait (sdict td) act q sp (sdict ek) mc mw hl
+  = (a3 <- py_setitem act' f (VInt slots) ;;
+     Ok (sdict (aupdate (aupdate ek (eff_rd ecores rd)) (forced q sp hl)), VInt slots, a3)).
+Proof.
+  intros Htd Hf Hek Hc Ht ND slots Hw.
+  unfold _submit_function_to_separate_process.
+  rewrite py_getitem_s, Htd. cbn [bind]. rewrite py_delitem_s, Htd. cbn [bind]. rewrite py_copy_s. cbn [bind].
+  rewrite py_keys_s. cbn [bind]. unfold py_not_in, py_in. cbn [bind]. rewrite list_mem_strs, mem_keys.
+  match goal with
+  | |- bind ?A (fun t5 => bind (@?B t5) ?K) = ?R =>
+      transitivity (bind (bind A B) K); [symmetry; apply bind_assoc|];
+      assert (HA : bind A B = Ok (sdict (eff_rd ecores rd)))
+  end.
+  { unfold eff_rd. unfold cores_is_int in Hc.
+    destruct (assoc "cores" rd) as [v|] eqn:Ec.
+    - destruct v as [ |b|c|s|l|l|d|cls id]; try contradiction.
+      cbn [truthy negb bind]. rewrite py_getitem_s, Ec. cbn [bind]. unfold py_eq. rewrite pyeqb_int.
+      cbn [bind truthy].
+      destruct (c =? 1)%Z eqn:Ec1; cbn [andb].
+      + rewrite !py_getitem_s, Hek. cbn [bind]. unfold py_ge, py_cmp. cbn [as_int bind truthy].
+        destruct (ecores >=? 1)%Z eqn:Ee.
+        * rewrite py_setitem_s. reflexivity.
+        * reflexivity.
+      + cbn [bind truthy]. reflexivity.
+    - cbn [truthy negb bind]. rewrite py_getitem_s, Hek. cbn [bind]. rewrite py_setitem_s. reflexivity. }
+  rewrite HA. clear HA. cbn [bind].
+  destruct (eff_rd_cores_int ecores rd Hc) as [k Hk].
+  rewrite py_getitem_s, Hk. cbn [bind]. rewrite py_dict_get_s.
+  rewrite (eff_rd_other ecores rd "threads_per_core") by discriminate. cbn [bind].
+  assert (Hs : py_mul (VInt k) (match assoc "threads_per_core" rd with Some v => v | None => VInt 1 end) = Ok (VInt slots)).
+  { unfold slots. rewrite Hk. cbn [int_or]. unfold threads_is_int in Ht.
+    destruct (assoc "threads_per_core" rd) as [v|]; [|reflexivity].
+    destruct v as [ |b|c|s|l|l|d|cls id]; try contradiction. reflexivity. }
+  rewrite Hs. cbn [bind]. rewrite Hw. cbn [bind].
+  rewrite py_getitem_s, Hf. cbn [bind].
+  rewrite py_copy_s. rewrite forced_mkdict.
+  destruct (py_setitem act' f (VInt slots)) as [a3|e]; cbn [bind]; [|reflexivity].
+  rewrite py_dict_update_s. cbn [bind]. rewrite py_dict_update_s. cbn [bind]. reflexivity.
+Qed.
 
+Print Assumptions submit_shape.
+
+(* under the hypotheses of submit_shape the function returns normally whenever the table of
+   active tasks handed back by the wait is a dictionary; the result is explicit *)
+Lemma submit_returns wait td rd ek ecores act q sp mc mw hl f d :
+  assoc "resource_dict" td = Some (sdict rd) ->
+  assoc "future" (adel "resource_dict" td) = Some f ->
+  assoc "cores" ek = Some (VInt ecores) ->
+  cores_is_int rd -> threads_is_int rd -> NoDup (keys td) ->
+  let slots := (int_or ecores (assoc "cores" (eff_rd ecores rd)) * int_or 1 (assoc "threads_per_core" rd))%Z in
+  wait act (VInt slots) mc mw = Ok (VDict d) ->
+  _submit_function_to_separate_process wait (sdict td) act q sp (sdict ek) mc mw hl
+  = Ok (sdict (aupdate (aupdate ek (eff_rd ecores rd)) (forced q sp hl)), VInt slots,
+        VDict (dict_set_l f (VInt slots) d)).
+Proof.
+  intros Htd Hf Hek Hc Ht ND slots Hw.
+  rewrite (submit_shape wait td rd ek ecores act q sp mc mw hl f (VDict d) Htd Hf Hek Hc Ht ND Hw).
+  reflexivity.
+Qed.
+
+Theorem submit_leaves_caller_dicts wait td rd ek ecores act q sp mc mw hl f d :
+  assoc "resource_dict" td = Some (sdict rd) ->
+  assoc "future" (adel "resource_dict" td) = Some f ->
+  assoc "cores" ek = Some (VInt ecores) ->
+  cores_is_int rd -> threads_is_int rd -> NoDup (keys td) ->
+  let slots := (int_or ecores (assoc "cores" (eff_rd ecores rd)) * int_or 1 (assoc "threads_per_core" rd))%Z in
+  wait act (VInt slots) mc mw = Ok (VDict d) ->
+  exists a3 slots' kw,
+    _submit_function_to_separate_process wait (sdict td) act q sp (sdict ek) mc mw hl = Ok (kw, slots', a3).
+Proof.
+  intros Htd Hf Hek Hc Ht ND slots Hw.
+  eexists. eexists. eexists.
+  exact (submit_returns wait td rd ek ecores act q sp mc mw hl f d Htd Hf Hek Hc Ht ND Hw).
+Qed.
+
+Print Assumptions submit_returns.
+Print Assumptions submit_leaves_caller_dicts.
